@@ -57,7 +57,7 @@ var (
 	c02XQ  = c02Addr(0x01, 0x85, 0x73) // foreign zone 0-1, Qi ledger
 	c02P1  = common.HexToAddress("0x0000000000000000000000000000000000000001", c02Loc)
 	c02KQ  = common.HexToAddress("0x00640d82EF6552085e494DF2a2EAec18D8215913", c02Loc) // kQuai setter
-	c02LK  common.Address                                                             // lockup contract (set in c02Init)
+	c02LK  common.Address                                                              // lockup contract (set in c02Init)
 	c02Z   = common.ZeroAddress(c02Loc)
 	c02Nam = map[string]string{}
 )
@@ -151,14 +151,16 @@ func (c *c02Chain) Engine(*types.WorkObjectHeader) consensus.Engine { return nil
 func (c *c02Chain) GetHeaderOrCandidateByHash(h common.Hash) *types.WorkObject {
 	return c.byHash[h]
 }
-func (c *c02Chain) NodeCtx() int                                       { return common.ZONE_CTX }
-func (c *c02Chain) IsGenesisHash(common.Hash) bool                     { return false }
-func (c *c02Chain) GetHeaderByHash(h common.Hash) *types.WorkObject    { return c.byHash[h] }
-func (c *c02Chain) GetBlockByHash(h common.Hash) *types.WorkObject     { return c.byHash[h] }
+func (c *c02Chain) NodeCtx() int                                            { return common.ZONE_CTX }
+func (c *c02Chain) IsGenesisHash(common.Hash) bool                          { return false }
+func (c *c02Chain) GetHeaderByHash(h common.Hash) *types.WorkObject         { return c.byHash[h] }
+func (c *c02Chain) GetBlockByHash(h common.Hash) *types.WorkObject          { return c.byHash[h] }
 func (c *c02Chain) CheckInCalcOrderCache(common.Hash) (*big.Int, int, bool) { return nil, 0, false }
-func (c *c02Chain) AddToCalcOrderCache(common.Hash, int, *big.Int)     {}
-func (c *c02Chain) CalcBaseFee(*types.WorkObject) *big.Int             { return new(big.Int).Set(c02BaseFee) }
-func (c *c02Chain) CalcOrder(*types.WorkObject) (*big.Int, int, error) { return big.NewInt(0), common.ZONE_CTX, nil }
+func (c *c02Chain) AddToCalcOrderCache(common.Hash, int, *big.Int)          {}
+func (c *c02Chain) CalcBaseFee(*types.WorkObject) *big.Int                  { return new(big.Int).Set(c02BaseFee) }
+func (c *c02Chain) CalcOrder(*types.WorkObject) (*big.Int, int, error) {
+	return big.NewInt(0), common.ZONE_CTX, nil
+}
 
 // CheckIfEtxIsEligible delegates to the real implementation (it does not touch its receiver).
 func (c *c02Chain) CheckIfEtxIsEligible(h common.Hash, l common.Location) bool {
@@ -379,8 +381,8 @@ func (a *c02Asm) PushBytes(v []byte) *c02Asm {
 	a.b = append(a.b, v...)
 	return a
 }
-func (a *c02Asm) Push(v uint64) *c02Asm        { return a.PushBytes(new(big.Int).SetUint64(v).Bytes()) }
-func (a *c02Asm) PushBig(v *big.Int) *c02Asm   { return a.PushBytes(v.Bytes()) }
+func (a *c02Asm) Push(v uint64) *c02Asm      { return a.PushBytes(new(big.Int).SetUint64(v).Bytes()) }
+func (a *c02Asm) PushBig(v *big.Int) *c02Asm { return a.PushBytes(v.Bytes()) }
 func (a *c02Asm) PushAddr(x common.Address) *c02Asm {
 	a.b = append(a.b, byte(vm.PUSH20))
 	a.b = append(a.b, x.Bytes()...)
